@@ -189,9 +189,13 @@ func famGet(g *sgen, i int) J {
 		if g.r.chance(50) {
 			cur["bto"] = bob
 		}
-		jmap(w["store"])[local("/notes/2")] = v
+		// a quarter of the requests carry a query: the id asked about, locked and unlocked is the whole request IRI
+		if g.r.chance(25) {
+			path = "/notes/2?page=true&min_id=7"
+		}
+		jmap(w["store"])[local(path)] = v
 		if g.r.chance(10) {
-			delete(jmap(w["store"]), local("/notes/2"))
+			delete(jmap(w["store"]), local(path))
 			w["getMissing"] = "nil"
 		}
 	}
@@ -202,6 +206,9 @@ func famGet(g *sgen, i int) J {
 	st := step(entry, "GET", g.header(true), path, nil)
 	if g.r.chance(5) {
 		st["shortWrite"] = true
+	}
+	if i%5 == 3 {
+		st["staleHeaders"] = true
 	}
 	return J{"label": entry, "cfg": J{"kind": kind}, "world": w, "steps": []interface{}{st}}
 }
@@ -273,7 +280,7 @@ func famIds(g *sgen, i int) J {
 	} else {
 		a = g.outboxValue(outboxTypes[g.r.intn(len(outboxTypes))], w)
 	}
-	switch i % 7 {
+	switch i % 8 {
 	case 0:
 		delete(a, "id")
 	case 1:
@@ -286,6 +293,9 @@ func famIds(g *sgen, i int) J {
 		a["id"] = J{"href": "https://b.example/x"}
 	case 5:
 		a["id"] = "/relative/ref"
+	case 6:
+		// absolute IRIs without an authority are ids like any other
+		a["id"] = []string{"urn:uuid:7b0b8a3e-5d6f-4e0a-9c55-0f3d0a6d2c11", "tag:b.example,2020:activity/7", "did:example:123456789abcdefghi", "acct:bob@b.example"}[g.r.intn(4)]
 	default:
 		a["id"] = remote("/activities/ok")
 	}
